@@ -194,6 +194,15 @@ class _Subst(ast.NodeTransformer):
         return node
 
 
+def _walk_same_scope(node):
+    """node and its descendants, not entering nested functions / lambdas / classes"""
+    yield node
+    for ch in ast.iter_child_nodes(node):
+        if isinstance(ch, (ast.FunctionDef, ast.AsyncFunctionDef, ast.Lambda, ast.ClassDef)):
+            continue
+        yield from _walk_same_scope(ch)
+
+
 class NotInlinable(Exception):
     pass
 
@@ -887,8 +896,27 @@ class Inliner:
         handler = ast.ExceptHandler(type=ast.Name(id="BaseException", ctx=ast.Load()), name=ev,
                                     body=[ast.If(test=ast.UnaryOp(op=ast.Not(), operand=call("__exit__", exc_args)), body=[ast.Raise(exc=None, cause=None)], orelse=[])])
         none3 = [ast.Constant(value=None), ast.Constant(value=None), ast.Constant(value=None)]
-        tr = ast.Try(body=list(w.body), handlers=[handler], orelse=[ast.Expr(value=call("__exit__", none3))], finalbody=[])
-        out = pre + [enter_st, tr]
+        ex = cls.methods["__exit__"]
+        ex_params = [a.arg for a in ex.node.args.args[1:]] + ([ex.node.args.vararg.arg] if ex.node.args.vararg else [])
+        inner = [n for st in ex.node.body for n in _walk_same_scope(st)]
+        never_suppresses = all(n.value is None or (isinstance(n.value, ast.Constant) and not n.value.value) for n in inner if isinstance(n, ast.Return))
+        blind = not any(isinstance(n, ast.Name) and n.id in ex_params and isinstance(n.ctx, ast.Load) for n in inner)
+        jumps = any(isinstance(n, (ast.Return, ast.Break, ast.Continue)) for st in w.body for n in _walk_same_scope(st))
+        if never_suppresses and blind:
+            # __exit__ neither looks at the exception nor suppresses it: it simply runs however BODY is left (also by return / break)
+            tr = ast.Try(body=list(w.body), handlers=[], orelse=[], finalbody=[ast.Expr(value=call("__exit__", none3))])
+            out = pre + [enter_st, tr]
+        elif jumps:
+            # BODY can be left by return / break / continue, which an `else` clause does not see: the full definition (PEP 343)
+            flag = "left_normally__w%d" % k
+            handler.body.insert(0, ast.Assign(targets=[ast.Name(id=flag, ctx=ast.Store())], value=ast.Constant(value=False)))
+            inner_try = ast.Try(body=list(w.body), handlers=[handler], orelse=[], finalbody=[])
+            tr = ast.Try(body=[inner_try], handlers=[], orelse=[],
+                         finalbody=[ast.If(test=ast.Name(id=flag, ctx=ast.Load()), body=[ast.Expr(value=call("__exit__", none3))], orelse=[])])
+            out = pre + [enter_st, ast.Assign(targets=[ast.Name(id=flag, ctx=ast.Store())], value=ast.Constant(value=True)), tr]
+        else:
+            tr = ast.Try(body=list(w.body), handlers=[handler], orelse=[ast.Expr(value=call("__exit__", none3))], finalbody=[])
+            out = pre + [enter_st, tr]
         for x in out:
             ast.copy_location(x, w)
             ast.fix_missing_locations(x)
